@@ -195,7 +195,22 @@ def make_evaluator(defs: Dict[str, ast.expr],
                 recv = e.args[0]
             if last in ("hstack", "vstack", "concatenate", "stack",
                         "column_stack") and e.args:
-                return ev(e.args[0], depth + 1)
+                def seq_kind(x):
+                    """kind of the members of a sequence expression"""
+                    if isinstance(x, ast.BinOp) and isinstance(x.op, ast.Add):
+                        a_, b_ = seq_kind(x.left), seq_kind(x.right)
+                        for v_ in (a_, b_):
+                            if v_[0] == "bad":
+                                return v_
+                        return a_ if a_ == b_ else (
+                            "bad", "sequence of quantities of different kind")
+                    if isinstance(x, ast.Call) and src(x.func) in (
+                            "tuple", "list") and x.args:
+                        return seq_kind(x.args[0])
+                    if isinstance(x, (ast.ListComp, ast.GeneratorExp)):
+                        return ev(x.elt, depth + 1)
+                    return ev(x, depth + 1)
+                return seq_kind(e.args[0])
             if recv is None:
                 return ("bad", f"call {f}")
             if last in ("isclose", "allclose") and len(e.args) >= 2:
